@@ -32,6 +32,8 @@ pub fn comp(b: u8) -> u8 {
         b'c' => b'g',
         b'g' => b'c',
         b't' => b'a',
+        b'U' => b'A',
+        b'u' => b'a',
         x => x,
     }
 }
@@ -160,6 +162,16 @@ pub fn tricky_seq(r: &mut Rng, k: usize) -> Vec<u8> {
             }
         }
         _ => {}
+    }
+    // RNA alphabet: U is packed as T
+    if r.chance(1, 8) {
+        for b in v.iter_mut() {
+            if *b == b'T' && r.chance(3, 4) {
+                *b = b'U';
+            } else if *b == b't' {
+                *b = b'u';
+            }
+        }
     }
     v
 }
@@ -1108,6 +1120,40 @@ fn gen_c15<W: Write>(r: &mut Rng, thorough: bool, out: &mut W) {
             recs.push(s(&cur));
         }
         writeln!(out, "build w={w} k={k} rc={rc} recs={}", recs.join(",")).unwrap();
+    }
+    // the complement table's consumer: a table keyed by the windows of a reference, cells full of
+    // ambiguity codes, mapped with strands merged (reference k-mers in the non-canonical orientation
+    // get the complemented code)
+    let rounds_map = if thorough { 1500 } else { 120 };
+    for _ in 0..rounds_map {
+        let k = *r.pick(&[5usize, 7, 9, 15, 31, 33]);
+        let w = if k <= 31 && r.chance(4, 5) { 64 } else { 128 };
+        let h = (k - 1) / 2;
+        let reflen = k + 2 + r.below(3 * k);
+        let reference = rand_acgt(r, reflen);
+        let nsamp = 1 + r.below(3);
+        let mut rows: Vec<String> = Vec::new();
+        let mut seen: Vec<u128> = Vec::new();
+        for j in 0..=(reference.len() - k) {
+            let win = &reference[j..j + k];
+            let mut arms = win[..h].to_vec();
+            arms.extend_from_slice(&win[h + 1..]);
+            let key = u128::min(pack(&arms), pack(&revcomp(&arms)));
+            if seen.contains(&key) || pack(&arms) == pack(&revcomp(&arms)) || !r.chance(3, 4) {
+                continue;
+            }
+            seen.push(key);
+            let cells: Vec<u8> = (0..nsamp).map(|_| if r.chance(1, 6) { b'-' } else { *r.pick(&AMBIG) }).collect();
+            if cells.iter().all(|c| *c == b'-') {
+                continue;
+            }
+            rows.push(format!("{}:{}", key, String::from_utf8(cells).unwrap()));
+        }
+        if rows.is_empty() {
+            continue;
+        }
+        let names: Vec<String> = (0..nsamp).map(|i| format!("s{i}")).collect();
+        writeln!(out, "map w={w} k={k} rc=1 amask=0 rmask=0 ref={} table={}|{}", s(&reference), names.join(","), rows.join(",")).unwrap();
     }
     // the distance weights: tables in which the same ambiguity code (or N) sits in several samples
     // of one row next to a differing sample, with ambiguous bases allowed and masked
